@@ -7,6 +7,7 @@ Init == pos = 1
 Out(ob) ==
   [reversed |-> RenderItems(V(ob)!AllReversed(ob.cst)),
    renamed  |-> RenderItems(V(ob)!AllRenamed(ob.cst)),
+   renamed2 |-> RenderItems(V(ob)!AllRenamed2(ob.cst)),
    single1  |-> RenderItems(V(ob)!AllSingle(ob.cst, 1)),
    single2  |-> RenderItems(V(ob)!AllSingle(ob.cst, 2)),
    single3  |-> RenderItems(V(ob)!AllSingle(ob.cst, 3))]
